@@ -316,14 +316,16 @@ Lemma single_subpixel_is_count sh x0 y0 x1 y1 s :
   single_subpixel sh x0 y0 x1 y1 s = subpix_count sh x0 y0 x1 y1 s.
 Proof.
   unfold single_subpixel, subpix_count, sub_centres. fold (cnt sh).
-  rewrite (loop_x_cnt sh _ _ 0 _ (x0 - half * ((x1 - x0) / inject_Z s))) by (cbn; ring).
+  rewrite (loop_x_cnt sh _ _ 0 _ (x0 - half * ((x1 - x0) / inject_Z s)))
+    by (rewrite !Qred_correct; cbn; ring).
   rewrite Z.add_0_l.
   fold (cnt sh (flat_map (fun i => map (fun j => (sub_coord x0 x1 s i, sub_coord y0 y1 s j))
                                        (seq 0 (Z.to_nat s))) (seq 0 (Z.to_nat s)))).
   generalize (seq 0 (Z.to_nat s)) at 2 4. intros li.
   induction li as [|i li IH]; [reflexivity|].
   cbn [flat_map]. rewrite !cnt_app, IH. f_equal.
-  apply cnt_map_ext. intros j _. cbn [fst snd]. unfold sub_coord, lin, half. split; ring.
+  apply cnt_map_ext. intros j _. cbn [fst snd]. unfold sub_coord, lin, half.
+  rewrite !Qred_correct. split; ring.
 Qed.
 
 (* ---------- the set of sub-pixel centres ---------- *)
@@ -726,8 +728,10 @@ Proof.
   unfold mask_counts. destruct (centered_edges b px py) as [[[xmin xmax] ymin] ymax] eqn:Ece.
   destruct CE as (Hdx & Hdy & Hxmin & Hymin).
   unfold overlap_grid. rewrite (nth_map_seq _ _ j) by exact Hj. rewrite (nth_map_seq _ _ i) by exact Hi.
-  set (dx := (xmax - xmin) / inject_Z (ixmax b - ixmin b)) in *.
-  set (dy := (ymax - ymin) / inject_Z (iymax b - iymin b)) in *.
+  rewrite <- (Qred_correct ((xmax - xmin) / inject_Z (ixmax b - ixmin b))) in Hdx.
+  rewrite <- (Qred_correct ((ymax - ymin) / inject_Z (iymax b - iymin b))) in Hdy.
+  set (dx := Qred ((xmax - xmin) / inject_Z (ixmax b - ixmin b))) in *.
+  set (dy := Qred ((ymax - ymin) / inject_Z (iymax b - iymin b))) in *.
   destruct pixel_radius_ok as [P1 P0].
   rewrite (cell_is_count sh pixel_radius dx dy _ _ s Hok Hdx Hdy P0 P1 ltac:(lia)).
   rewrite subpix_count_cnt. unfold sub_centres, pixel_count, pixel_centres.
@@ -735,10 +739,14 @@ Proof.
   assert (Ns : ~ inject_Z s == 0).
   { intros E. assert (0 < inject_Z s) by (change 0 with (inject_Z 0); rewrite <- Zlt_Qlt; lia). lra. }
   rewrite !inject_Z_plus. split.
-  - setoid_replace (xmin + inject_Z (Z.of_nat i) * dx + dx - (xmin + inject_Z (Z.of_nat i) * dx)) with dx by ring.
-    rewrite Hdx, Hxmin. field. exact Ns.
-  - setoid_replace (ymin + inject_Z (Z.of_nat j) * dy + dy - (ymin + inject_Z (Z.of_nat j) * dy)) with dy by ring.
-    rewrite Hdy, Hymin. field. exact Ns.
+  - set (p0 := Qred (xmin + inject_Z (Z.of_nat i) * dx)).
+    assert (E0 : p0 == xmin + inject_Z (Z.of_nat i) * dx) by (unfold p0; apply Qred_correct).
+    setoid_replace (p0 + dx - p0) with dx by ring.
+    rewrite E0, Hdx, Hxmin. field. exact Ns.
+  - set (p0 := Qred (ymin + inject_Z (Z.of_nat j) * dy)).
+    assert (E0 : p0 == ymin + inject_Z (Z.of_nat j) * dy) by (unfold p0; apply Qred_correct).
+    setoid_replace (p0 + dy - p0) with dy by ring.
+    rewrite E0, Hdy, Hymin. field. exact Ns.
 Qed.
 
 (* ---------- the shape lies within the extents handed to from_float ---------- *)
